@@ -228,6 +228,37 @@ def bigRsh (i j : Int) : Int := i / ((2 : Int) ^ j.toNat)
 
 def bigQuo (i j : Int) : Int := Int.tdiv i j
 
+/-! The four sign-definite blocks of `mulLsh` (inline in the Go code):
+`x` negative/positive times `y` negative/positive. -/
+
+/-- `mulLsh`, `if hasNegX { if hasNegY { … } }` -/
+def mulNN (combine : Int → Int → Int) (negX negY : IR) (ret : BIP) : BIP :=
+  let ret := ret.lowerMin (.fin (combine (negX.hi.getD 0) (negY.hi.getD 0)))
+  match negX.lo, negY.lo with
+  | some a, some b => ret.raiseMax (.fin (combine a b))
+  | _, _ => ret.raiseMax .posInf
+
+/-- `mulLsh`, `if hasNegX { if hasPosY { … } }` -/
+def mulNP (combine : Int → Int → Int) (negX posY : IR) (ret : BIP) : BIP :=
+  let ret := match negX.lo, posY.hi with
+    | some a, some b => ret.lowerMin (.fin (combine a b))
+    | _, _ => ret.lowerMin .negInf
+  ret.raiseMax (.fin (combine (negX.hi.getD 0) (posY.lo.getD 0)))
+
+/-- `mulLsh`, `if hasPosX { if hasNegY { … } }` -/
+def mulPN (combine : Int → Int → Int) (posX negY : IR) (ret : BIP) : BIP :=
+  let ret := match posX.hi, negY.lo with
+    | some a, some b => ret.lowerMin (.fin (combine a b))
+    | _, _ => ret.lowerMin .negInf
+  ret.raiseMax (.fin (combine (posX.lo.getD 0) (negY.hi.getD 0)))
+
+/-- `mulLsh`, `if hasPosX { if hasPosY { … } }` -/
+def mulPP (combine : Int → Int → Int) (posX posY : IR) (ret : BIP) : BIP :=
+  let ret := ret.lowerMin (.fin (combine (posX.lo.getD 0) (posY.lo.getD 0)))
+  match posX.hi, posY.hi with
+  | some a, some b => ret.raiseMax (.fin (combine a b))
+  | _, _ => ret.raiseMax .posInf
+
 /-- `mulLsh` -/
 def mulLsh (x y : IR) (shift : Bool) : IR :=
   if x.empty || y.empty then mkEmpty
@@ -242,35 +273,13 @@ def mulLsh (x y : IR) (shift : Bool) : IR :=
       else BIP.new
     let ret :=
       if hasNegX then
-        let ret :=
-          if hasNegY then
-            let ret := ret.lowerMin (.fin (combine (negX.hi.getD 0) (negY.hi.getD 0)))
-            match negX.lo, negY.lo with
-            | some a, some b => ret.raiseMax (.fin (combine a b))
-            | _, _ => ret.raiseMax .posInf
-          else ret
-        if hasPosY then
-          let ret := match negX.lo, posY.hi with
-            | some a, some b => ret.lowerMin (.fin (combine a b))
-            | _, _ => ret.lowerMin .negInf
-          ret.raiseMax (.fin (combine (negX.hi.getD 0) (posY.lo.getD 0)))
-        else ret
+        let ret := if hasNegY then mulNN combine negX negY ret else ret
+        if hasPosY then mulNP combine negX posY ret else ret
       else ret
     let ret :=
       if hasPosX then
-        let ret :=
-          if hasNegY then
-            let ret := match posX.hi, negY.lo with
-              | some a, some b => ret.lowerMin (.fin (combine a b))
-              | _, _ => ret.lowerMin .negInf
-            ret.raiseMax (.fin (combine (posX.lo.getD 0) (negY.hi.getD 0)))
-          else ret
-        if hasPosY then
-          let ret := ret.lowerMin (.fin (combine (posX.lo.getD 0) (posY.lo.getD 0)))
-          match posX.hi, posY.hi with
-          | some a, some b => ret.raiseMax (.fin (combine a b))
-          | _, _ => ret.raiseMax .posInf
-        else ret
+        let ret := if hasNegY then mulPN combine posX negY ret else ret
+        if hasPosY then mulPP combine posX posY ret else ret
       else ret
     ret.toIR
 
@@ -279,6 +288,40 @@ def mul (x y : IR) : IR := mulLsh x y false
 /-- `TryLsh`; `none` = (IntRange{}, false) -/
 def tryLsh (x y : IR) : Option IR :=
   if !x.empty && y.containsNegative then none else some (mulLsh x y true)
+
+/-! The four sign-definite blocks of `TryQuo`. -/
+
+def quoNN (negX negY : IR) (ret : BIP) : BIP :=
+  let ret := match negX.lo with
+    | none => ret.raiseMax .posInf
+    | some a => ret.raiseMax (.fin (bigQuo a (negY.hi.getD 0)))
+  match negY.lo with
+  | none => ret.lowerMin (.fin 0)
+  | some b => ret.lowerMin (.fin (bigQuo (negX.hi.getD 0) b))
+
+def quoNP (negX posY : IR) (ret : BIP) : BIP :=
+  let ret := match negX.lo with
+    | none => ret.lowerMin .negInf
+    | some a => ret.lowerMin (.fin (bigQuo a (posY.lo.getD 0)))
+  match posY.hi with
+  | none => ret.raiseMax (.fin 0)
+  | some b => ret.raiseMax (.fin (bigQuo (negX.hi.getD 0) b))
+
+def quoPN (posX negY : IR) (ret : BIP) : BIP :=
+  let ret := match posX.hi with
+    | none => ret.lowerMin .negInf
+    | some a => ret.lowerMin (.fin (bigQuo a (negY.hi.getD 0)))
+  match negY.lo with
+  | none => ret.raiseMax (.fin 0)
+  | some b => ret.raiseMax (.fin (bigQuo (posX.lo.getD 0) b))
+
+def quoPP (posX posY : IR) (ret : BIP) : BIP :=
+  let ret := match posX.hi with
+    | none => ret.raiseMax .posInf
+    | some a => ret.raiseMax (.fin (bigQuo a (posY.lo.getD 0)))
+  match posY.hi with
+  | none => ret.lowerMin (.fin 0)
+  | some b => ret.lowerMin (.fin (bigQuo (posX.lo.getD 0) b))
 
 /-- `TryQuo` -/
 def tryQuo (x y : IR) : Option IR :=
@@ -291,45 +334,33 @@ def tryQuo (x y : IR) : Option IR :=
     let ret : BIP := if hasZeroX then ⟨.fin 0, .fin 0⟩ else BIP.new
     let ret :=
       if hasNegX then
-        let ret :=
-          if hasNegY then
-            let ret := match negX.lo with
-              | none => ret.raiseMax .posInf
-              | some a => ret.raiseMax (.fin (bigQuo a (negY.hi.getD 0)))
-            match negY.lo with
-            | none => ret.lowerMin (.fin 0)
-            | some b => ret.lowerMin (.fin (bigQuo (negX.hi.getD 0) b))
-          else ret
-        if hasPosY then
-          let ret := match negX.lo with
-            | none => ret.lowerMin .negInf
-            | some a => ret.lowerMin (.fin (bigQuo a (posY.lo.getD 0)))
-          match posY.hi with
-          | none => ret.raiseMax (.fin 0)
-          | some b => ret.raiseMax (.fin (bigQuo (negX.hi.getD 0) b))
-        else ret
+        let ret := if hasNegY then quoNN negX negY ret else ret
+        if hasPosY then quoNP negX posY ret else ret
       else ret
     let ret :=
       if hasPosX then
-        let ret :=
-          if hasNegY then
-            let ret := match posX.hi with
-              | none => ret.lowerMin .negInf
-              | some a => ret.lowerMin (.fin (bigQuo a (negY.hi.getD 0)))
-            match negY.lo with
-            | none => ret.raiseMax (.fin 0)
-            | some b => ret.raiseMax (.fin (bigQuo (posX.lo.getD 0) b))
-          else ret
-        if hasPosY then
-          let ret := match posX.hi with
-            | none => ret.raiseMax .posInf
-            | some a => ret.raiseMax (.fin (bigQuo a (posY.lo.getD 0)))
-          match posY.hi with
-          | none => ret.lowerMin (.fin 0)
-          | some b => ret.lowerMin (.fin (bigQuo (posX.lo.getD 0) b))
-        else ret
+        let ret := if hasNegY then quoPN posX negY ret else ret
+        if hasPosY then quoPP posX posY ret else ret
       else ret
     some ret.toIR
+
+/-! The two blocks of `TryRsh` (`y` is the whole, non-negative, shift range). -/
+
+def rshN (negX y : IR) (ret : BIP) : BIP :=
+  let ret := match negX.lo with
+    | none => ret.lowerMin .negInf
+    | some a => ret.lowerMin (.fin (bigRsh a (y.lo.getD 0)))
+  match y.hi with
+  | none => ret.raiseMax (.fin (-1))
+  | some b => ret.raiseMax (.fin (bigRsh (negX.hi.getD 0) b))
+
+def rshP (posX y : IR) (ret : BIP) : BIP :=
+  let ret := match y.hi with
+    | none => ret.lowerMin (.fin 0)
+    | some b => ret.lowerMin (.fin (bigRsh (posX.lo.getD 0) b))
+  match posX.hi with
+  | none => ret.raiseMax .posInf
+  | some a => ret.raiseMax (.fin (bigRsh a (y.lo.getD 0)))
 
 /-- `TryRsh` -/
 def tryRsh (x y : IR) : Option IR :=
@@ -339,24 +370,8 @@ def tryRsh (x y : IR) : Option IR :=
   else
     let (negX, posX, hasNegX, hasZeroX, hasPosX) := x.split3
     let ret : BIP := if hasZeroX then ⟨.fin 0, .fin 0⟩ else BIP.new
-    let ret :=
-      if hasNegX then
-        let ret := match negX.lo with
-          | none => ret.lowerMin .negInf
-          | some a => ret.lowerMin (.fin (bigRsh a (y.lo.getD 0)))
-        match y.hi with
-        | none => ret.raiseMax (.fin (-1))
-        | some b => ret.raiseMax (.fin (bigRsh (negX.hi.getD 0) b))
-      else ret
-    let ret :=
-      if hasPosX then
-        let ret := match y.hi with
-          | none => ret.lowerMin (.fin 0)
-          | some b => ret.lowerMin (.fin (bigRsh (posX.lo.getD 0) b))
-        match posX.hi with
-        | none => ret.raiseMax .posInf
-        | some a => ret.raiseMax (.fin (bigRsh a (y.lo.getD 0)))
-      else ret
+    let ret := if hasNegX then rshN negX y ret else ret
+    let ret := if hasPosX then rshP posX y ret else ret
     some ret.toIR
 
 /-! ### Two's-complement bit operations on `Int` (core Lean has none).
@@ -388,15 +403,18 @@ def iandNot (a b : Int) : Int := iand a (inot b)
 /-- `BitLen` of the absolute value -/
 def bitLen (i : Int) : Nat := if i.natAbs = 0 then 0 else Nat.log2 i.natAbs + 1
 
-/-- `bitFillRight`.  The Go code panics on a negative argument and above 0xFFFF
-bits; both are unreachable from the public API (negative: see
-`Props/C06`), and the model returns the argument unchanged there. -/
+/-- `bitFillRight` on its domain (non-negative argument; 0xFFFF-bit size panic out of scope).
+Outside the domain the value is irrelevant (see `bitFillRightP`); the argument is returned. -/
 def bitFillRight (i : Int) : Int := if i ≤ 0 then i else (2 : Int) ^ (bitLen i) - 1
+
+/-- `bitFillRight` with the `panic("pre-condition failure")` on a negative argument (`none`). -/
+def bitFillRightP (i : Int) : Option Int := if i < 0 then none else some (bitFillRight i)
 
 /-- `bitMask(n0, n1)` = 2^max(n0,n1) - 1 -/
 def bitMask (n0 n1 : Nat) : Int := (2 : Int) ^ (max n0 n1) - 1
 
-/-- `andMax` (receiver x = [xlo, xhi], argument y = [ylo, yhi]); all finite. -/
+/-- `andMax` (receiver x = [xlo, xhi], argument y = [ylo, yhi]); all finite.
+Pure version (what is computed when no `bitFillRight` panics). -/
 def andMax (xlo xhi ylo yhi : Int) : Int :=
   if yhi ≥ xlo && xhi ≥ ylo then
     (if xhi > yhi then yhi else xhi)
@@ -411,7 +429,22 @@ def andMax (xlo xhi ylo yhi : Int) : Int :=
     let k := iand (ior (k >>> 1) i) xhi
     if j < k then k else j
 
-/-- `orMax` -/
+/-- `andMax` as executed: `none` = a `bitFillRight` panic. -/
+def andMaxP (xlo xhi ylo yhi : Int) : Option Int :=
+  if yhi ≥ xlo && xhi ≥ ylo then
+    some (if xhi > yhi then yhi else xhi)
+  else do
+    let j ← bitFillRightP (iandNot xhi xlo)
+    let j ← bitFillRightP (iandNot (iand j xhi) yhi)
+    let i := iandNot xhi j
+    let j := iand (ior (j >>> 1) i) yhi
+    let k ← bitFillRightP (iandNot yhi ylo)
+    let k ← bitFillRightP (iandNot (iand k yhi) xhi)
+    let i := iandNot yhi k
+    let k := iand (ior (k >>> 1) i) xhi
+    pure (if j < k then k else j)
+
+/-- `orMax`, pure version. -/
 def orMax (xlo xhi ylo yhi : Int) : Int :=
   if xlo = 0 && ylo = 0 then
     ior (ior ((bitFillRight (iand xhi yhi)) >>> 1) xhi) yhi
@@ -423,6 +456,20 @@ def orMax (xlo xhi ylo yhi : Int) : Int :=
     let j := (bitFillRight j) >>> 1
     ior (ior j xhi) yhi
 
+/-- `orMax` as executed: `none` = a `bitFillRight` panic. -/
+def orMaxP (xlo xhi ylo yhi : Int) : Option Int :=
+  if xlo = 0 && ylo = 0 then do
+    let i ← bitFillRightP (iand xhi yhi)
+    pure (ior (ior (i >>> 1) xhi) yhi)
+  else do
+    let i := iandNot xhi xlo
+    let j := iandNot yhi ylo
+    let j ← bitFillRightP (ior j i)
+    let j := iand (iand j xhi) yhi
+    let j ← bitFillRightP j
+    let j := j >>> 1
+    pure (ior (ior j xhi) yhi)
+
 /-- `andBothNonNeg`; `none` = the pre-condition-failure / unreachable panic. -/
 def andBothNonNeg (x y : IR) : Option IR :=
   if x.empty || x.containsNegative || y.empty || y.containsNegative then none
@@ -431,9 +478,9 @@ def andBothNonNeg (x y : IR) : Option IR :=
     | some xlo, some ylo =>
       (match x.hi, y.hi with
       | some xhi, some yhi =>
-        let zMax := andMax xlo xhi ylo yhi
-        let zMin := inot (orMax (inot xhi) (inot xlo) (inot yhi) (inot ylo))
-        some ⟨some zMin, some zMax⟩
+        (andMaxP xlo xhi ylo yhi).bind fun zMax =>
+        (orMaxP (inot xhi) (inot xlo) (inot yhi) (inot ylo)).map fun m =>
+        ⟨some (inot m), some zMax⟩
       | some xhi, none => some ⟨some 0, some xhi⟩
       | none, some yhi => some ⟨some 0, some yhi⟩
       | none, none => some ⟨some 0, none⟩)
@@ -446,10 +493,11 @@ def orBothNonNeg (x y : IR) : Option IR :=
     match x.lo, y.lo with
     | some xlo, some ylo =>
       let fin (xlo xhi ylo yhi : Int) (zMax : Option Int) : Option IR :=
-        let zMin := inot (andMax (inot xhi) (inot xlo) (inot yhi) (inot ylo))
-        some ⟨some zMin, zMax⟩
+        (andMaxP (inot xhi) (inot xlo) (inot yhi) (inot ylo)).map fun m =>
+        ⟨some (inot m), zMax⟩
       (match x.hi, y.hi with
-      | some xhi, some yhi => fin xlo xhi ylo yhi (some (orMax xlo xhi ylo yhi))
+      | some xhi, some yhi =>
+        (orMaxP xlo xhi ylo yhi).bind fun zMax => fin xlo xhi ylo yhi (some zMax)
       | xhi?, yhi? =>
         if x.containsInt ylo then some ⟨some ylo, none⟩
         else if y.containsInt xlo then some ⟨some xlo, none⟩
@@ -459,11 +507,11 @@ def orBothNonNeg (x y : IR) : Option IR :=
           | some xhi, _ =>
             -- y is the half-infinite one
             if xhi ≥ ylo then none else
-            fin xlo xhi ylo (bitFillRight ylo) none
+            (bitFillRightP ylo).bind fun f => fin xlo xhi ylo f none
           | none, some yhi =>
             -- swap: x, y = y, x
             if yhi ≥ xlo then none else
-            fin ylo yhi xlo (bitFillRight xlo) none)
+            (bitFillRightP xlo).bind fun f => fin ylo yhi xlo f none)
     | _, _ => none
 
 /-- `andOneNegOneNonNeg` -/
